@@ -83,6 +83,23 @@ def r1(ctx, r):
                      "%s(%s…) writes to a session descriptor outside doSend/writePending: bytes reach the wire that are not the queue's" % (
                          e.node["callee"], show(a0)), okdesc="%s: %s(%s, …)" % (short(f.name), e.node["callee"], show(a0)))
     r.floor(4, "session write sites")
+    # the write path is entered only through the command queue (doSend from process, writePending from the epoll handler):
+    # a direct call from send()/a callback path would overtake commands that were accepted earlier
+    cg = ctx.cg()
+    for callee, allowed_callers in ((TE + "::doSend", {TE + "::process"}), (TE + "::writePending", {TE + "::onSession"})):
+        callers = {f.name for (f, e, n) in cg.callers.get(callee, [])}
+        r.instance()
+        r.expect(bool(callers) and callers <= allowed_callers, callee, None, "%s called outside the dispatch" % last(callee),
+                 "%s is called from %s; it may only be reached through %s — any other entry bypasses the FIFO command queue that defines the order of accepted sends" % (
+                     last(callee), sorted(short(c) for c in callers - allowed_callers), sorted(short(c) for c in allowed_callers)),
+                 okdesc="%s called only from %s" % (last(callee), ",".join(short(c) for c in allowed_callers)))
+    # send() itself only copies and enqueues
+    snd = fb.func(TE + "::send", file_suffix=FILE)
+    r.instance()
+    enq = [e for e in snd.stmts() if e.node.get("k") == "mcall" and e.node.get("callee") == TE + "::enqueue"]
+    w = search(snd, ("entry",), "exit", stop=lambda x: x in enq, eh=False, edge_ok=lambda b, si: not (b.cond is not None and show(b.cond).replace(" ", "") in ("n==0",) and b.edge_label(si) is True))
+    r.expect(bool(enq) and w is None, snd, None, "send does not enqueue", "a path through TcpEngine::send accepts data without enqueueing a send command", witness=witness_str(snd, w),
+             okdesc="send(): every non-empty payload is enqueued")
 
 
 # ------------------------------------------------------------------ R2
